@@ -385,7 +385,8 @@ class Libs:
         F = ExtMod('torch.nn.functional', {
             'conv2d': ops.conv2d, 'conv_transpose2d': ops.conv_transpose2d, 'pad': ops.pad,
             'avg_pool2d': ops.avg_pool2d, 'interpolate': ops.interpolate,
-            'relu': self._nonlinear('relu'),
+            'relu': self._nonlinear('relu'), 'conv1d': self._conv1d, 'conv_transpose1d': self._conv_transpose1d,
+            'avg_pool1d': self._unsupported('avg_pool1d'),
         })
         nn = ExtMod('torch.nn', {'Module': module_base, 'Parameter': self._parameter, 'functional': F})
         autograd = ExtMod('torch.autograd', {'Function': function_base})
@@ -399,6 +400,7 @@ class Libs:
             'is_grad_enabled': self._is_grad_enabled, 'abs': self._nonlinear('abs'),
             'where': self._torch_where, 'sign': self._nonlinear('sign'), 'exp': self._nonlinear('exp'),
             'log': self._nonlinear('log'), 'clamp': self._nonlinear('clamp'), 'pow': self._pow,
+            'chunk': self._torch_chunk, 'split': self._torch_split, 'narrow': self._torch_narrow,
             'finfo': self._torch_finfo, 'arange': self._torch_arange, 'remainder': self._torch_remainder, 'fmod': self._torch_remainder,
             'is_tensor': lambda x: isinstance(x, (DataT, Sym)) and getattr(x, 'lib', 'torch') == 'torch',
             'device': lambda s: Device(str(s)),
@@ -922,6 +924,44 @@ class Libs:
     def _is_grad_enabled(self):
         self.interp.event('grad-mode-read')
         return self.grad_enabled and not self.interp.nograd
+
+    def _conv1d(self, x, w, bias=None, stride=1, padding=0, dilation=1, groups=1):
+        # conv1d on (N, C, L) = conv2d on (N, C, 1, L) with a (O, I, 1, k) kernel
+        one = lambda v: v[0] if isinstance(v, (tuple, list)) else v
+        x4 = x[:, :, None, :]
+        w4 = w[:, :, None, :]
+        y = ops.conv2d(x4, w4, bias, (1, one(stride)), (0, one(padding)), (1, one(dilation)), groups)
+        return y[:, :, 0]
+
+    def _conv_transpose1d(self, x, w, bias=None, stride=1, padding=0, output_padding=0, groups=1, dilation=1):
+        one = lambda v: v[0] if isinstance(v, (tuple, list)) else v
+        x4 = x[:, :, None, :]
+        w4 = w[:, :, None, :]
+        y = ops.conv_transpose2d(x4, w4, bias, (1, one(stride)), (0, one(padding)), (0, one(output_padding)), groups,
+                                 (1, one(dilation)))
+        return y[:, :, 0]
+
+    def _torch_chunk(self, x, chunks, dim=0):
+        n = x.shape[dim]
+        size = -(-n // chunks)
+        return self._torch_split(x, size, dim)
+
+    def _torch_split(self, x, size, dim=0):
+        n = x.shape[dim]
+        d = dim % x.ndim
+        sizes = list(size) if isinstance(size, (list, tuple)) else [min(size, n - i) for i in range(0, n, size)]
+        out, pos = [], 0
+        for sz in sizes:
+            idx = [slice(None)] * x.ndim
+            idx[d] = slice(pos, pos + sz)
+            out.append(x[tuple(idx)])
+            pos += sz
+        return tuple(out)
+
+    def _torch_narrow(self, x, dim, start, length):
+        idx = [slice(None)] * x.ndim
+        idx[dim % x.ndim] = slice(start, start + length)
+        return x[tuple(idx)]
 
     def _torch_finfo(self, dtype=None):
         from . import nonlin
